@@ -27,7 +27,7 @@ META = {
                    "rounds once with eps; (4) GAUGE - both start from a right-to-left orthogonalisation of the operand with a fresh "
                    "rank list and never write the operand.",
     "assumptions": ["the eps bound itself and optimality of ranks are not decided", "element order inside a re-grouped mode is not decided (shapes, chaining and provenance are)"],
-    "floors": {"EXACT-SPLIT": 1, "E5-CHAIN": 80, "DRAIN": 6, "E4-ALLOWANCE": 2, "E4-EPSFLOW": 2, "GAUGE": 2},
+    "floors": {"EXACT-SPLIT": 1, "E5-CHAIN": 80, "DRAIN": 1, "E4-ALLOWANCE": 2, "E4-EPSFLOW": 2, "GAUGE": 2},
 }
 ANCHORS = ["_extras.reshape", "_extras.permute", "_tt_base.TT.to_qtt", "_tt_base.TT.qtt_to_tens"]
 
